@@ -6,10 +6,11 @@ CONSTANTS
   SubIds = {}
   ItemIds = {}
   Devs = {}
-  LevelSet = {"missing", "wrong", "0", "1", "2", "3", "7"}
+  LevelSet = {"missing", "wrong", "null", "0", "1", "2", "3", "7"}
   Focus = "access"
   MaxOps = 4
   MaxProbes = 0
+  SetLevels = {}
 INIT GInit
 NEXT GNext
 INVARIANT InvSessionRequired
